@@ -103,11 +103,10 @@ class Scenario(sc.SockWorld):
         if live:
             if not live[-1].eof_from_peer:
                 acts.append(("eof",))
-            if self.p.get("pausing"):
-                if live[-1].paused:
-                    acts.append(("resume",))
-                elif self.npause < 1:
-                    acts.append(("pause",))
+            if self.p.get("pausing") and not live[-1].paused and self.npause < 1:
+                acts.append(("pause",))
+        if self.p.get("pausing") and self.net.stalled():
+            acts.append(("resume",))          # also for a stream the client has closed and that lingers on its unsent bytes
         if len(self.calls) < self.max_send:
             acts.append(("send",))
         if not self.loop.has_ready() and self.p.get("adv", True):
@@ -138,7 +137,7 @@ class Scenario(sc.SockWorld):
             self.npause += 1
             self.net.live()[-1].pause()
         elif op == "resume":
-            self.net.live()[-1].resume()
+            self.net.stalled()[-1].resume()
         elif op == "send":
             k = len(self.calls)
             pol = self.p.get("pol", POL)
